@@ -141,6 +141,29 @@ def const_arith(ctx, l, depth=0):
     return None
 
 
+def len_minus_const(ctx, l, depth=0):
+    """If local l is `len(K) - k` (k a positive constant) return (K, k)."""
+    if l is None or depth > 6:
+        return None
+    ds = ctx.defs.by_local.get(l, [])
+    if len(ds) != 1 or ds[0][0] != "stmt":
+        return None
+    rv = ds[0][3]["rv"]
+    if rv["k"] == "use":
+        p = op_place(rv["op"])
+        if p is not None and (not p["p"] or [str(e.get("f")) for e in p["p"] if isinstance(e, dict)] == ["0"]):
+            return len_minus_const(ctx, p["l"], depth + 1)
+        return None
+    if rv["k"] == "bin" and rv["op"].replace("WithOverflow", "").replace("Unchecked", "") == "Sub":
+        k = op_int(rv["b"])
+        la = op_local(rv["a"])
+        if k is not None and k > 0 and la is not None:
+            key = ctx.ld.len_source(la)
+            if key is not None:
+                return (key, k)
+    return None
+
+
 def producer_of(ctx, l, depth=0):
     """Callee that produced local l (through moves)."""
     f = ctx.f
@@ -281,6 +304,17 @@ def run(tier="quick", replay=None):
                     if k is None and op_local(t["index"]) is not None:
                         k = const_arith(ctx, op_local(t["index"]))   # `_7 = const 0; assert(Lt(_7, len))`
                     if k is None:
+                        lm = len_minus_const(ctx, op_local(t["index"]))
+                        ckey = ctx.ld.len_source(op_local(t["len"])) if op_local(t["len"]) is not None else None
+                        if lm and ckey is not None and lm[0] == ckey:
+                            desc = describe_place_key(f, ckey)
+                            key = site_key(f, "lastindex", "%s[len-%d]" % (desc, lm[1]))
+                            m = ctx.ld.min_len_at_term(bb, ckey)
+                            how = "length: min_len(%s)=%d >= %d" % (desc, m, lm[1]) if m >= lm[1] else None
+                            settle(f, key, site, "lastindex", how,
+                                   "%s indexes %s[len - %d] with no proof that it holds at least %d element(s): on an empty "
+                                   "container the subtraction underflows and the access panics" % (f.path, desc, lm[1], lm[1]))
+                            continue
                         excluded["variable-index BoundsCheck"] += 1
                         continue
                     # the indexed place: len operand is Len/PtrMetadata of it, or a constant for arrays
@@ -338,7 +372,18 @@ def run(tier="quick", replay=None):
                 desc = describe_place_key(f, rkey)
                 if ity == "usize":
                     k = op_int(t["args"][1])
+                    if k is None and op_local(t["args"][1]) is not None:
+                        k = const_arith(ctx, op_local(t["args"][1]))
                     if k is None:
+                        lm = len_minus_const(ctx, op_local(t["args"][1]))
+                        if lm and rkey is not None and lm[0] == rkey:
+                            key = site_key(f, "lastindex", "%s[len-%d]" % (desc, lm[1]))
+                            m = ctx.ld.min_len_at_term(bb, rkey)
+                            how = "length: min_len(%s)=%d >= %d" % (desc, m, lm[1]) if m >= lm[1] else None
+                            settle(f, key, site, "lastindex", how,
+                                   "%s indexes %s[len - %d] with no proof that it holds at least %d element(s): on an empty "
+                                   "container the subtraction underflows and the access panics" % (f.path, desc, lm[1], lm[1]))
+                            continue
                         excluded["variable-index Index"] += 1
                         continue
                     key = site_key(f, "index", "%s[%d]" % (desc, k))
